@@ -7,6 +7,9 @@
 
 #include <models/ModelBuilder.h>
 
+#include <cstdint>
+#include <string>
+
 namespace opensmt {
 class IDLSolver : public STPSolver<SafeInt> {
 public:
@@ -16,7 +19,13 @@ public:
 template<>
 SafeInt Converter<SafeInt>::getValue(Number const & val) {
     assert(val.isInteger());
-    return SafeInt(static_cast<ptrdiff_t>(val.get_d()));
+    // exact conversion; constants that do not fit are reported as an overflow (check-sat answers unknown)
+    static Number const maxVal(std::to_string(PTRDIFF_MAX).c_str());
+    static Number const minVal(std::to_string(PTRDIFF_MIN).c_str());
+    if (val > maxVal or val < minVal) {
+        throw std::overflow_error("Difference logic constant does not fit into the machine integer");
+    }
+    return SafeInt(static_cast<ptrdiff_t>(std::stoll(val.get_str())));
 }
 
 template<>
@@ -26,6 +35,7 @@ SafeInt Converter<SafeInt>::getValue(ptrdiff_t val) {
 
 template<>
 SafeInt Converter<SafeInt>::negate(SafeInt const & val) {
+    if (val.value() == PTRDIFF_MAX) { throw std::overflow_error("Overflow detected during SafeInt negation"); }
     return SafeInt(-(val.value() + 1));
 }
 
